@@ -27,7 +27,7 @@ import collections
 import datetime as dt
 
 from ujvc.core import EngineSignal
-from ujvc.units import get, unit
+from ujvc.units import get, unit, user_value
 
 from .runphys import Trace, _catch, _real, user_fn
 
@@ -73,7 +73,7 @@ def run_unit(ctx):
     reg_kind = ctx.choose(3, "registry")  # none / non-empty / empty
     registry = None if reg_kind == 0 else Registry(reg_kind == 1)
     has_out = ctx.choose(2, "output") == 0
-    OUTSPEC = [object()] if has_out else None
+    OUTSPEC = [user_value("output-spec-atom")] if has_out else None
     dry = ctx.choose(2, "dry_run") == 1
     has_tp = ctx.choose(2, "transform_physical") == 1
     scmw = [None, 5][ctx.choose(2, "stale_check_max_workers")]
@@ -84,7 +84,7 @@ def run_unit(ctx):
         return f
     PWVS_PLAN, PWVS_OUT = Plan("after-registry"), ("redirected",)
     TP_PLAN, TP_OUT = Plan("after-transform"), ("transformed-out",)
-    RESULT = object()
+    RESULT = user_value("result")
     node = graph.Call(user_fn)
 
     class FalsyBoom(Boom):
